@@ -4,6 +4,7 @@ Property theorems about the executable model `IrVerif.Clone` (Model/Clone.lean);
 development (invariant of the cloner, Hoare rules) is in Lemmas/Clone.lean.
 -/
 import IrVerif.Lemmas.Clone
+import IrVerif.Lemmas.CloneFrame
 namespace IrVerif.Clone
 
 /-! ### what "the objects of a clone" are -/
@@ -207,6 +208,196 @@ theorem C13_clone_pure_model {w w' : World} {fuel : Nat} {m : Nat} {r : Except E
   obtain ⟨hres, _⟩ := CloneResult.of_good (fun s hI => modelClone_good fuel m hI) h
   exact hres.oldEq rfl
 
+
+/-! ### C13_frame: edits of one copy leave the other copy's cells unchanged -/
+
+theorem FInv.restart {B : Nat → Prop} {wB : World} {s : St} (h : FInv B wB s) :
+    FInv B wB { w := s.w } := ⟨h.bound, h.same, h.sep⟩
+
+theorem runHistory_inv {B : Nat → Prop} {wB : World} :
+    ∀ (es : List Edit) (w : World), FInv B wB { w := w } → (∀ e ∈ es, ArgsOut B e) →
+      FInv B wB { w := (runHistory es w).2 }
+  | [], _, h, _ => h
+  | e :: es, w, h, ha => by
+    have h1 := (applyEdit_frame e h (ha e List.mem_cons_self)).1
+    unfold runHistory run
+    rcases hm : applyEdit e { w := w } with ⟨r, s1⟩
+    rw [hm] at h1
+    simp only
+    have h2 := runHistory_inv es s1.w h1.restart (fun e' he' => ha e' (List.mem_cons_of_mem _ he'))
+    rcases hr : runHistory es s1.w with ⟨rs, w2⟩
+    rw [hr] at h2
+    exact h2
+
+/-- **C13_frame** (general form).  Let `B` be any set of cells of a heap `w` such that no cell
+    outside `B` has a pointer into `B` among the pointers editing calls follow (type, shape,
+    metadata containers, owning graph, node inputs, graph outputs).  Then for EVERY edit history
+    whose arguments are outside `B` — whatever the edits are, however many, whether they succeed
+    or raise half-way — every cell of `B` is afterwards exactly what it was. -/
+theorem C13_frame (B : Nat → Prop) (w : World) (es : List Edit)
+    (hb : ∀ i, B i → i < w.length)
+    (hsep : ∀ (i : Nat) (c : Cell), ¬ B i → w[i]? = some c → CellOut B c)
+    (hargs : ∀ e ∈ es, ∀ a ∈ e.args, ¬ B a) :
+    ∀ i, B i → (runHistory es w).2[i]? = w[i]? :=
+  (runHistory_inv (wB := w) es w ⟨hb, fun _ _ => rfl, hsep⟩ hargs).same
+
+theorem cellOut_of_cellOk {w0 : World} {lo hi : Nat} {c : Cell}
+    (h : CellOk w0 lo hi false c) : CellOut (fun i => i < lo) c := by
+  have opt : ∀ o, OptIn lo hi o → OptOut (fun i => i < lo) o := by
+    intro o ho
+    cases o with
+    | none => trivial
+    | some x => exact Nat.not_lt.mpr ho.1
+  cases c with
+  | val v =>
+    obtain ⟨a, b, c, d, e, _⟩ := h
+    exact ⟨opt _ a, opt _ b, Nat.not_lt.mpr c.1, Nat.not_lt.mpr d.1, opt _ e⟩
+  | node n =>
+    obtain ⟨_, b, c, _, _, f⟩ := h
+    exact ⟨fun v hv => Nat.not_lt.mpr (f rfl v hv).1, Nat.not_lt.mpr b.1, Nat.not_lt.mpr c.1⟩
+  | graph g =>
+    obtain ⟨_, b, _, _, e, f⟩ := h
+    exact ⟨fun v hv => Nat.not_lt.mpr (b v hv).1, Nat.not_lt.mpr e.1, Nat.not_lt.mpr f.1⟩
+  | model m =>
+    obtain ⟨_, _, c, d⟩ := h
+    exact ⟨Nat.not_lt.mpr c.1, Nat.not_lt.mpr d.1⟩
+  | attr _ => trivial
+  | func _ => trivial
+  | type _ => trivial
+  | shape _ => trivial
+  | dict _ => trivial
+
+/-- editing the clone never changes the original: shared statement for the three entry points -/
+theorem frame_clone_edited {w w' : World} (hres : CloneResult w false w') (es : List Edit)
+    (hargs : ∀ e ∈ es, ∀ a ∈ e.args, w.length ≤ a) :
+    ∀ i, i < w.length → (runHistory es w').2[i]? = w[i]? := by
+  intro i hi
+  have := C13_frame (fun i => i < w.length) w' es
+    (fun i hi => Nat.lt_of_lt_of_le hi hres.grows)
+    (fun i c hni hc => cellOut_of_cellOk (hres.cells i c (Nat.not_lt.mp hni) hc))
+    (fun e he a ha => Nat.not_lt.mpr (hargs e he a ha)) i hi
+  rw [this]
+  exact hres.oldEq rfl i _ (List.getElem?_eq_getElem hi) ▸ (List.getElem?_eq_getElem hi).symm ▸ rfl
+
+/-- **C13_frame_clone_edited** (`Graph.clone()`, `GraphView.clone()`).  After cloning, every
+    history of edits applied to objects that did not exist before the clone (the clone's objects and
+    whatever the edits create) leaves every pre-existing cell exactly as it was before cloning. -/
+theorem C13_frame_clone_edited {w w' : World} {fuel g : Nat} {r : Except Err Nat}
+    (h : run (graphClone fuel false g) w = (r, w')) (es : List Edit)
+    (hargs : ∀ e ∈ es, ∀ a ∈ e.args, w.length ≤ a) :
+    ∀ i, i < w.length → (runHistory es w').2[i]? = w[i]? :=
+  frame_clone_edited (CloneResult.of_good (fun s hI => graphClone_good fuel g hI) h).1 es hargs
+
+/-- **C13_frame_function** (`Function.clone()`). -/
+theorem C13_frame_function {w w' : World} {fuel f : Nat} {r : Except Err Nat}
+    (h : run (funcClone fuel f) w = (r, w')) (es : List Edit)
+    (hargs : ∀ e ∈ es, ∀ a ∈ e.args, w.length ≤ a) :
+    ∀ i, i < w.length → (runHistory es w').2[i]? = w[i]? :=
+  frame_clone_edited (CloneResult.of_good (fun s hI => funcClone_good fuel f hI) h).1 es hargs
+
+/-- **C13_functionalize** (`passes.functionalize(p)(model)` = `p(model.clone())`,
+    `_pass_infra.py` 331-353).  Whatever editing calls the wrapped pass performs on the objects of
+    the clone it is given (and on objects it creates), in whatever order, the input model and
+    everything else that existed before the call is unchanged — cell for cell. -/
+theorem C13_functionalize {w w' : World} {fuel m : Nat} {r : Except Err Nat}
+    (h : run (modelClone fuel m) w = (r, w')) (pass : List Edit)
+    (hargs : ∀ e ∈ pass, ∀ a ∈ e.args, w.length ≤ a) :
+    ∀ i, i < w.length → (runHistory pass w').2[i]? = w[i]? :=
+  frame_clone_edited (CloneResult.of_good (fun s hI => modelClone_good fuel m hI) h).1 pass hargs
+
+theorem followed_oldSame {n0 : Nat} {c0 c : Cell} (h : OldSame n0 c0 c) : followed c = followed c0 := by
+  have := h.1
+  cases c <;> cases c0 <;> simp [Cell.eraseUses] at this <;> try (subst this; rfl)
+  next v v0 =>
+    obtain ⟨_, _, _, _, e5, _, _, _, e1, e2, _, e3, e4⟩ := this
+    simp [followed, e1, e2, e3, e4, e5]
+
+theorem cellOut_of_followed {B : Nat → Prop} {c : Cell} (h : ∀ p ∈ followed c, ¬ B p) : CellOut B c := by
+  have opt : ∀ o : Option Nat, (∀ p ∈ o.toList, ¬ B p) → OptOut B o := by
+    intro o ho
+    cases o with
+    | none => trivial
+    | some x => exact ho x (by simp)
+  cases c with
+  | val v =>
+    simp only [followed, List.mem_append, List.mem_cons] at h
+    exact ⟨opt _ (fun p hp => h p (by simp [hp])), opt _ (fun p hp => h p (by simp [hp])),
+      h _ (by simp), h _ (by simp), opt _ (fun p hp => h p (by simp [hp]))⟩
+  | node n =>
+    simp only [followed, List.mem_append, List.mem_cons, List.mem_filterMap, id] at h
+    exact ⟨fun v hv => h v (.inl ⟨some v, hv, rfl⟩), h _ (by simp), h _ (by simp)⟩
+  | graph g =>
+    simp only [followed, List.mem_append, List.mem_cons] at h
+    exact ⟨fun v hv => h v (.inl hv), h _ (by simp), h _ (by simp)⟩
+  | model m =>
+    simp only [followed, List.mem_cons] at h
+    exact ⟨h _ (by simp), h _ (by simp)⟩
+  | attr _ => trivial
+  | func _ => trivial
+  | type _ => trivial
+  | shape _ => trivial
+  | dict _ => trivial
+
+theorem wellFormed_spec {w : World} (h : wellFormed w = true) {i : Nat} {c : Cell}
+    (hc : w[i]? = some c) : ∀ p ∈ followed c, p < w.length := by
+  unfold wellFormed at h
+  rw [List.all_eq_true] at h
+  have := h c (List.mem_of_getElem? hc)
+  rw [List.all_eq_true] at this
+  intro p hp
+  simpa using this p hp
+
+/-- **C13_frame_orig_edited**.  The symmetric direction, for both settings of
+    `allow_outer_scope_values`: if the heap before cloning has no dangling pointers, every history
+    of edits whose arguments are not objects created by the clone (the original's objects, the
+    enclosing graphs, objects the edits create) leaves every cell created by the clone — the whole
+    clone — exactly as it was. -/
+theorem C13_frame_orig_edited {w w' : World} {fuel g : Nat} {allow : Bool} {r : Except Err Nat}
+    (hwf : wellFormed w = true)
+    (h : run (graphClone fuel allow g) w = (r, w')) (es : List Edit)
+    (hargs : ∀ e ∈ es, ∀ a ∈ e.args, ¬ (w.length ≤ a ∧ a < w'.length)) :
+    ∀ i, w.length ≤ i → i < w'.length → (runHistory es w').2[i]? = w'[i]? := by
+  obtain ⟨hres, _⟩ := CloneResult.of_good (fun s hI => graphClone_good fuel g hI) h
+  intro i h1 h2
+  refine C13_frame (fun i => w.length ≤ i ∧ i < w'.length) w' es (fun i hi => hi.2) ?_ hargs i ⟨h1, h2⟩
+  intro j c hj hc
+  have hjlt : j < w.length := by
+    have := lt_of_getElem? hc
+    rcases Nat.lt_or_ge j w.length with h | h
+    · exact h
+    · exact absurd ⟨h, this⟩ hj
+  obtain ⟨c', hc', hsame⟩ := hres.old j _ (List.getElem?_eq_getElem hjlt)
+  rw [hc] at hc'
+  cases hc'
+  apply cellOut_of_followed
+  rw [followed_oldSame hsame]
+  intro p hp hB
+  have := wellFormed_spec hwf (List.getElem?_eq_getElem hjlt) p hp
+  omega
+
+theorem C13_frame_orig_edited_model {w w' : World} {fuel m : Nat} {r : Except Err Nat}
+    (hwf : wellFormed w = true)
+    (h : run (modelClone fuel m) w = (r, w')) (es : List Edit)
+    (hargs : ∀ e ∈ es, ∀ a ∈ e.args, ¬ (w.length ≤ a ∧ a < w'.length)) :
+    ∀ i, w.length ≤ i → i < w'.length → (runHistory es w').2[i]? = w'[i]? := by
+  obtain ⟨hres, _⟩ := CloneResult.of_good (fun s hI => modelClone_good fuel m hI) h
+  intro i h1 h2
+  refine C13_frame (fun i => w.length ≤ i ∧ i < w'.length) w' es (fun i hi => hi.2) ?_ hargs i ⟨h1, h2⟩
+  intro j c hj hc
+  have hjlt : j < w.length := by
+    have := lt_of_getElem? hc
+    rcases Nat.lt_or_ge j w.length with h | h
+    · exact h
+    · exact absurd ⟨h, this⟩ hj
+  obtain ⟨c', hc', hsame⟩ := hres.old j _ (List.getElem?_eq_getElem hjlt)
+  rw [hc] at hc'
+  cases hc'
+  apply cellOut_of_followed
+  rw [followed_oldSame hsame]
+  intro p hp hB
+  have := wellFormed_spec hwf (List.getElem?_eq_getElem hjlt) p hp
+  omega
+
 /-! ### non-vacuity: the hypotheses are satisfiable and D33 is a real counterexample to the
 unconditional statement for `allow = true` -/
 
@@ -226,6 +417,11 @@ def exWorld : World := [
   .dict {}, .dict {},
   .type { dtype := 1 } ]
 
+def typeOfDtype (w : World) : List Nat :=
+  w.filterMap fun c => match c with
+    | .type t => some t.dtype
+    | _ => none
+
 def isOk : Except Err Nat → Bool
   | .ok _ => true
   | .error _ => false
@@ -233,6 +429,20 @@ def isOk : Except Err Nat → Bool
 /-- the hypothesis `run (graphClone ..) w = (.ok g', w')` of the theorems is satisfiable -/
 example : isOk (run (graphClone 4 false 0) exWorld).1 = true := by decide +kernel
 example : isOk (run (graphClone 4 true 0) exWorld).1 = true := by decide +kernel
+
+/-- the hypotheses of the frame theorems are satisfiable: the example heap is well formed, and
+    there are histories whose arguments are objects of the clone -/
+example : wellFormed exWorld = true := by decide +kernel
+
+def exHistory : List Edit :=
+  [.setDtype 16 7, .setName 16 (some "renamed"), .dictSet 23 .props "k" "v", .replaceInput 19 0 none,
+   .setDim 16 0 (.int 3)]
+
+example : ∀ e ∈ exHistory, ∀ a ∈ e.args, exWorld.length ≤ a := by decide +kernel
+
+/-- and such a history really changes the clone (so "the original is unchanged" is not vacuous) -/
+example : typeOfDtype (runHistory exHistory (run (graphClone 4 false 0) exWorld).2).2 = [1, 7] := by
+  decide +kernel
 
 /-- the type object of the cloned input `x` is a new cell, not cell 12 (D32 fixed) -/
 def typeOfValueNamed (w : World) (nm : String) : List (Option Nat) :=
